@@ -105,7 +105,7 @@ Proof.
   destruct (is_symlink fs (cwd_str fs ++ P)) as [[|]|]; destruct (file_len fs (cwd_str fs ++ P)) as [L|];
     try (intro H; inversion H; right; right; reflexivity); try apply pcr_err.
   destruct (read_link fs (cwd_str fs ++ P)); [|intro H; inversion H; right; right; reflexivity].
-  match goal with |- context [resolve_symlink_lex ?f ?d ?t] => destruct (resolve_symlink_lex f d t) end; [apply pcr_err|discriminate].
+  match goal with |- context [resolve_symlink_lex ?f ?d ?t] => destruct (resolve_symlink_lex f d t) end; [apply pcr_err|intro H; inversion H; right; right; reflexivity].
 Qed.
 Lemma process_static_err fs r st : process_static fs r = SErr st -> err3 st.
 Proof.
